@@ -28,7 +28,7 @@ fn meta() -> Meta {
     Meta {
         id: "C17",
         level: "exploration",
-        rule: "(a) every specification with <= 3 module names from {a, a::b, a::bc, a-b (a dash is part of the name, not an underscore), B (upper case: module names are case-sensitive), error, info} x 6 filters x optional default, built by LogSpecBuilder and by parse, round-tripped through Display, TOML and (<=1 name) the specfile; (b) every string of <= L tokens over {a, a::b, info, OFF, Warn, 5, bogus, =, ',', /, ' ', x(, e-acute, tab} plus single special code points in three contexts, against a reference parser (a text filter installed is exactly the text between the slashes); distinct_nontrivial = distinct inputs that are either malformed or contain at least two well-formed parts; round trips also with text filters (whatever Display produces parses back); case-mapping look-alikes of level words among the special inputs; lists of 12 / 40 / 400 malformed parts with well-formed parts before, between and after them; one specification with 1500 module filters through every round trip",
+        rule: "(a) every specification with <= 3 module names from {a, a::b, a::bc, a-b (a dash is part of the name, not an underscore), B (upper case: module names are case-sensitive), error, info} x 6 filters x optional default, built by LogSpecBuilder and by parse, round-tripped through Display, TOML and (<=1 name) the specfile; (b) every string of <= L tokens over {a, a::b, info, OFF, Warn, 5, bogus, =, ',', /, ' ', x(, e-acute, tab} plus single special code points in three contexts, against a reference parser (a text filter installed is exactly the text between the slashes; the entries of the result are, as a multiset, the well-formed parts - also when a name is given twice); distinct_nontrivial = distinct inputs that are either malformed or contain at least two well-formed parts; round trips also with text filters (whatever Display produces parses back); case-mapping look-alikes of level words among the special inputs; lists of 12 / 40 / 400 malformed parts with well-formed parts before, between and after them; one specification with 1500 module filters through every round trip",
         assumptions: vec![
             "inputs with an empty module name or naming a module/default twice are only checked for no-panic and Ok/Err stability (outside the quantifier)".into(),
             "regex validity is decided by the regex crate".into(),
@@ -90,6 +90,8 @@ struct RefParse {
     /// input contains an empty module name or names something twice
     unspecified: bool,
     regex_given_and_valid: bool,
+    /// every well-formed part in text order, repetitions included
+    all_parts: Vec<(Option<String>, LevelFilter)>,
     wellformed_parts: usize,
 }
 
@@ -139,6 +141,9 @@ fn ref_parse(input: &str) -> RefParse {
             }
             _ => None,
         };
+        if let Some(e) = &entry {
+            r.all_parts.push(e.clone());
+        }
         match entry {
             None => r.malformed = true,
             Some((None, l)) => {
@@ -214,6 +219,9 @@ fn check_parse(input: &str) -> Result<(bool, bool), (String, String, String)> {
                     format!("parse({input:?}) returned Ok(`{spec}`) but the input has a malformed part"),
                 ));
             }
+            if let Some(d) = parts_differ(&spec, &r.all_parts) {
+                return Err(("ok-parts".into(), token_class(input), format!("parse({input:?}) = Ok(`{spec}`): {d}")));
+            }
             if !r.unspecified {
                 if grid_of(&spec, &TARGETS) != r.spec.grid(&TARGETS) {
                     return Err((
@@ -245,6 +253,10 @@ fn check_parse(input: &str) -> Result<(bool, bool), (String, String, String)> {
                     format!("parse({input:?}) returned Err although every part is well-formed (reference `{}`)", r.spec.text()),
                 ));
             }
+            let want_parts = if r.structure_broken { Vec::new() } else { r.all_parts.clone() };
+            if let Some(d) = parts_differ(&spec, &want_parts) {
+                return Err(("salvage-parts".into(), token_class(input), format!("parse({input:?}) = Err carrying `{spec}`: {d}")));
+            }
             if !r.unspecified {
                 let want = if r.structure_broken { RefSpec::default() } else { r.spec.clone() };
                 if grid_of(&spec, &TARGETS) != want.grid(&TARGETS) {
@@ -261,6 +273,22 @@ fn check_parse(input: &str) -> Result<(bool, bool), (String, String, String)> {
         }
     }
     Ok((nontrivial, r.malformed))
+}
+
+
+/// "contains exactly the well-formed parts": the entries of the specification, as a multiset of
+/// (module name, level), are the well-formed parts of the text - also when a name occurs twice
+/// (which of the two decides is not specified, that both are kept is).
+fn parts_differ(spec: &LogSpecification, want: &[(Option<String>, LevelFilter)]) -> Option<String> {
+    let mut got: Vec<(Option<String>, String)> = spec.module_filters().iter().map(|m| (m.module_name.clone(), m.level_filter.to_string())).collect();
+    let mut want: Vec<(Option<String>, String)> = want.iter().map(|(n, l)| (n.clone(), l.to_string())).collect();
+    got.sort();
+    want.sort();
+    if got == want {
+        None
+    } else {
+        Some(format!("entries {got:?}, well-formed parts {want:?}"))
+    }
 }
 
 // ---------------------------------------------------------------- round trip
